@@ -35,11 +35,13 @@ import (
 	"testing"
 	"time"
 
+	"github.com/alicebob/miniredis/v2"
 	"github.com/labstack/echo/v4"
 	"github.com/lestrrat-go/jwx/v2/jwa"
 	"github.com/sirupsen/logrus"
 	"github.com/nuts-foundation/go-did/did"
 	"github.com/nuts-foundation/go-did/vc"
+	"github.com/redis/go-redis/v9"
 	"github.com/nuts-foundation/nuts-node/auth"
 	iamclient "github.com/nuts-foundation/nuts-node/auth/client/iam"
 	"github.com/nuts-foundation/nuts-node/auth/oauth"
@@ -119,6 +121,7 @@ type c02Op struct {
 	Subjects  []string    `json:"subjects,omitempty"`
 	Policy    []c02Policy `json:"policy,omitempty"`
 	PolicyRaw string      `json:"policy_raw,omitempty"` // the policy file content (scope -> owner -> definition)
+	Backend   string      `json:"backend,omitempty"`    // session store back-end of the world: "" = in-memory, "redis" = the Redis session database on miniredis
 	DefsRaw   []string    `json:"defs_raw,omitempty"`   // definition JSON by key
 	Sha       []c02Sha    `json:"sha,omitempty"`
 	// s2s / authresp / code
@@ -166,7 +169,7 @@ type c02World struct {
 	t        *testing.T
 	ctrl     *gomock.Controller
 	w        *Wrapper
-	db       *storage.VerifSessionDB
+	db       c02Ager
 	shiftMs  int64
 	verdicts map[string]bool // VP id -> presentation signature verdict
 	vcVerdicts map[string]bool // VP id -> verdict on its credentials
@@ -187,15 +190,47 @@ type c02World struct {
 	verifyArgsBad bool
 }
 
+// c02Ager ages every stored session entry by d (time translation); rewrite may adjust time stamps inside a value
+type c02Ager interface {
+	Age(d time.Duration, rewrite func(fullKey string, value []byte) []byte)
+}
+
+type c02RedisAger struct{ mr *miniredis.Miniredis }
+
+func (a c02RedisAger) Age(d time.Duration, rewrite func(fullKey string, value []byte) []byte) {
+	for _, k := range a.mr.Keys() {
+		if v, err := a.mr.Get(k); err == nil {
+			if nv := rewrite(k, []byte(v)); string(nv) != v {
+				ttl := a.mr.TTL(k)
+				_ = a.mr.Set(k, string(nv))
+				a.mr.SetTTL(k, ttl)
+			}
+		}
+	}
+	a.mr.FastForward(d)
+}
+
 const c02PublicURL = "https://as.example"
 
 func c02NewWorld(t *testing.T, cfg c02Op) *c02World {
 	ctrl := gomock.NewController(t)
 	w := &c02World{t: t, ctrl: ctrl, verdicts: map[string]bool{}, vcVerdicts: map[string]bool{}, tokNames: map[string]string{}, tokReal: map[string]string{},
 		codeNames: map[string]string{}, codeReal: map[string]string{}, nonceNames: map[string]string{}, nonceReal: map[string]string{}, stateNames: map[string]string{}, stateReal: map[string]string{}, dpopJkt: map[string]string{}, defs: map[int]pe.PresentationDefinition{}}
-	w.db = storage.NewVerifSessionDB()
+	var sessionDB storage.SessionDatabase
+	if cfg.Backend == "redis" {
+		// the OTHER back-end: the real Redis session database (go-redis client) against miniredis, whose clock only moves
+		// when told to (FastForward) - the same time translation
+		mr := miniredis.RunT(t)
+		client := redis.NewClient(&redis.Options{Addr: mr.Addr()})
+		sessionDB = storage.NewRedisSessionDatabase(client, "nuts")
+		w.db = c02RedisAger{mr}
+		t.Cleanup(func() { _ = client.Close() })
+	} else {
+		mem := storage.NewVerifSessionDB()
+		sessionDB, w.db = mem, mem
+	}
 	engine := storage.NewMockEngine(ctrl)
-	engine.EXPECT().GetSessionDatabase().Return(w.db).AnyTimes()
+	engine.EXPECT().GetSessionDatabase().Return(sessionDB).AnyTimes()
 	authn := auth.NewMockAuthenticationServices(ctrl)
 	pub, _ := url.Parse(cfg.PublicURL)
 	authn.EXPECT().PublicURL().Return(pub).AnyTimes()
@@ -782,7 +817,7 @@ func (w *c02World) realCode(name string) string {
 func (w *c02World) execAdvance(op *c02Op) string {
 	d := time.Duration(op.Ms) * time.Millisecond
 	w.db.Age(d, func(key string, val []byte) []byte {
-		if !strings.HasPrefix(key, "serveraccesstoken/") {
+		if !strings.Contains(key, "serveraccesstoken") {
 			return val
 		}
 		var m map[string]json.RawMessage
@@ -2381,6 +2416,9 @@ func TestVerifC02(t *testing.T) {
 	for wi := 0; wi < worlds; wi++ {
 		g := &c02Gen{rng: rng, subjects: []string{"alpha", "alpha2", "beta"}}
 		cfg := g.newConfig(wi%3 == 2)
+		if wi%8 == 5 {
+			cfg.Backend = "redis"
+		}
 		w := c02NewWorld(t, cfg)
 		cfg.T = w.nowNs()
 		out.emit(&cfg, "cfg")
